@@ -32,10 +32,36 @@ def pick(rng, pool):
     return v if v > 0 else 10.0 ** -k
 
 
+def nearly(rng, v):
+    """a float that differs from v by one ulp .. 1e-3 relative (never equal)"""
+    t = rng.random()
+    if t < 0.3:
+        w = v
+        for _ in range(rng.choice([1, 1, 2, 5, 100])):
+            w = float(np.nextafter(w, math.inf if t < 0.15 else 0.0))
+    else:
+        d = rng.choice([1e-14, 1e-12, 1e-9, 1e-7, 1e-6, 1e-5, 5e-5, 9.9e-5, 1e-4, 1.1e-4, 5e-4, 1e-3])
+        w = v * (1 + d * rng.choice([1, -1]))
+    return w if (w != v and w > 0) else float(np.nextafter(v, math.inf))
+
+
+def near_rel(cfg):
+    """relative distance of the two pixel sizes of a configuration (spot: x / y spacing; raster: speed * scantime / spot size)"""
+    a, b = (Fraction(cfg["sx"]), Fraction(cfg["sy"])) if cfg["kind"] == "spot" else (Fraction(cfg["speed"]) * Fraction(cfg["scantime"]), Fraction(cfg["spotsize"]))
+    return abs(a - b) / max(a, b) if max(a, b) > 0 else None
+
+
 def gen_cfg(rng):
-    if rng.random() < 0.6:
+    t = rng.random()
+    if t < 0.54:
         return {"kind": "raster", "spotsize": pick(rng, SPOTSIZES), "speed": pick(rng, SPEEDS), "scantime": pick(rng, SCANTIMES)}
+    if t < 0.60:  # nearly square raster pixels: the spot size differs from speed * scantime by 1 ulp .. 1e-3
+        speed, scantime = pick(rng, SPEEDS), pick(rng, SCANTIMES)
+        return {"kind": "raster", "spotsize": nearly(rng, speed * scantime), "speed": speed, "scantime": scantime}
     sx = pick(rng, SPOTSIZES)
+    if t < 0.70:  # nearly equal x / y spacings (either may be the larger): each must be used as given
+        sy = nearly(rng, sx)
+        return {"kind": "spot", "sx": sx, "sy": sy} if rng.random() < 0.5 else {"kind": "spot", "sx": sy, "sy": sx}
     sy = sx if rng.random() < 0.3 else pick(rng, SPOTSIZES)
     return {"kind": "spot", "sx": sx, "sy": sy}
 
@@ -1073,6 +1099,11 @@ class C10(Prop):
             yield {"kind": "get", "cfg": c_, "rows": 3, "cols": 2, "nel": 1, "element": 0, "rect": [0, 3, 0, 2], "modes": ["mul"] * 4}
         base = {"spotsize": 70.0, "speed": 140.0, "scantime": 0.25, "warmup": 0.5, "pairs": [[0, 2], [1, 2]],
                 "mag": 2, "n": 2, "shapes": [[2, 12], [3, 10]], "short": None, "wmode": "exact"}
+        # nearly equal parameters: each is used as given (seeded C10-e2)
+        for a_, b_ in ((10.0, 10.0009), (10.0009, 10.0), (0.1 * 3, 0.3), (35.0, float(np.nextafter(35.0, 36.0))), (100.0, 100.0 * (1 - 9.9e-5))):
+            yield {"kind": "extent", "cfg": {"kind": "spot", "sx": a_, "sy": b_}, "rows": 7, "cols": 5}
+            yield {"kind": "get", "cfg": {"kind": "spot", "sx": a_, "sy": b_}, "rows": 4000, "cols": 3, "nel": 1, "element": 0, "rect": [0, 4000, 0, 3], "modes": ["mul"] * 4}
+        yield {"kind": "extent", "cfg": {"kind": "raster", "spotsize": float(np.nextafter(35.0, 0.0)), "speed": 140.0, "scantime": 0.25}, "rows": 7, "cols": 5}
         # SRR configuration only: offset denominators whose least common multiple does not fit 31 / 32 bits (seeded C10-d2)
         for pairs_ in ([[0, 65537], [1, 65539]], [[0, 46349], [5, 46351], [2, 3]], [[0, 1009], [1, 1013]], [[3, 2 ** 31 + 11]],
                        [[0, 2 ** 31 - 1], [0, 2 ** 31 + 11]], [[7, 2 ** 40 + 1]], [[0, 46349], [5, 46351], [7, 3]], [[0, 2147483647], [1, 2147483659]]):
@@ -1195,7 +1226,15 @@ class C10(Prop):
             mf = rep["modelF"]
             same = ([rat(impl["pw"]), rat(impl["ph"])] == [mf["pw"], mf["ph"]] and [rat(v) for v in impl["extent"]] == mf["extent"])
             feats.add("extent bit-for-bit the float64 model" if same else "extent differs from the float64 model in the last bits (recorded only)")
-        spec_ok = agrees(s["pw"], s["ph"], s["extent"]) and survived
+        # a pixel size that IS a parameter (no arithmetic: pixel height; the x spacing of a spot configuration) must be that
+        # parameter exactly - a tolerance would hide two nearly equal parameters being taken for one another
+        as_given = rat(impl["ph"]) == s["ph"] and rat(impl["roundtrip"]["ph"]) == s["ph"] \
+            and (cfg["kind"] != "spot" or (rat(impl["pw"]) == s["pw"] and rat(impl["roundtrip"]["pw"]) == s["pw"]))
+        nr = near_rel(cfg)
+        if nr is not None and 0 < nr <= Fraction(1, 1000):
+            feats.add("nearly equal pixel sizes: " + ("within 1e-12" if nr <= Fraction(1, 10 ** 12) else "within 1e-6" if nr <= Fraction(1, 10 ** 6)
+                                                       else "within 1e-4" if nr <= Fraction(1, 10 ** 4) else "within 1e-3"))
+        spec_ok = agrees(s["pw"], s["ph"], s["extent"]) and survived and as_given
         model_ok = (agrees(m["pw"], m["ph"], m["extent"]) and "extent" in m["roundtrip"]
                     and ext_close(impl["roundtrip"]["extent"], m["roundtrip"]["extent"]) and m["data_extent"] == m["extent"]
                     and same_outcome(impl["roundtrip"], m["roundtrip"])
